@@ -232,6 +232,7 @@ func evalC10(col *vc.Collector, sc *C10Scn, res c10Result) {
 		var unregRet time.Duration = -1 // time the last unregister/cancel returned with no register since
 		var unregSeq int64 = -1
 		autoOn := false
+		var autoOffAt time.Duration = -1
 		dials := 0
 		var lastSetupSeq int64 = -1
 		closedDial := false
@@ -248,8 +249,14 @@ func evalC10(col *vc.Collector, sc *C10Scn, res c10Result) {
 				continue
 			}
 			if e.Kind == "api:autoaccept" {
+				if autoOn && e.S != "true" {
+					// a handshake whose trust decision was taken while auto-accept was on may still complete
+					// shortly after it was switched off
+					autoOffAt = e.T
+				}
 				autoOn = e.S == "true"
 			}
+			autoEff := autoOn || autoOffAt >= 0 && e.T < autoOffAt+c10Delta
 			if e.Kind == "api:shutdown-ret" {
 				shutdownRet = e.T
 			}
@@ -290,12 +297,20 @@ func evalC10(col *vc.Collector, sc *C10Scn, res c10Result) {
 				if shutdownRet >= 0 && e.T > shutdownRet+c10Delta {
 					col.Violation(prop, "dial-after-shutdown", fmt.Sprintf("outbound TCP connection at %v, %v after Shutdown returned", e.T, e.T-shutdownRet), sc.ID, wit)
 				}
+			case "pairing":
+				if e.N == 5 && autoEff && !registered {
+					// auto-accept grants trust when the hello phase ends (hello-ok), also if the handshake does
+					// not get as far as the setup of the remote device
+					registered, everRegistered = true, true
+					unregRet, unregSeq = -1, -1
+					col.Count(prop, "auto-accept-pairings", 1)
+				}
 			case "setup":
 				lastSetupSeq = e.Seq
 				// C01 at hub level: the remote device is set up although the local side has not granted
 				// trust at that moment (not registered, or unregistered/cancelled since; auto-accept off)
 				col.Count("C01", "hub:setups-observed", 1)
-				if !registered && !autoOn {
+				if !registered && !autoEff {
 					ut := time.Duration(-1)
 					for _, x := range res.Evs {
 						if x.Seq == unregSeq {
@@ -306,7 +321,7 @@ func evalC10(col *vc.Collector, sc *C10Scn, res c10Result) {
 						col.Violation("C01", knownSig("hub:setup-without-trust"), fmt.Sprintf("SetupRemoteDevice for target %d at %v while the SKI is not registered and auto-accept is off", ti, e.T), sc.ID, wit)
 					}
 				}
-				if autoOn && !registered {
+				if autoEff && !registered {
 					// auto-accept pairs whoever connects: from here on the SKI counts as registered
 					// (the hub marks it trusted) until it is unregistered again
 					registered, everRegistered = true, true
@@ -314,7 +329,7 @@ func evalC10(col *vc.Collector, sc *C10Scn, res c10Result) {
 					col.Count(prop, "auto-accept-pairings", 1)
 					continue
 				}
-				if !registered && unregSeq >= 0 && e.Seq > unregSeq && !autoOn {
+				if !registered && unregSeq >= 0 && e.Seq > unregSeq && !autoEff {
 					// tolerate a completion that was racing the unregister call itself
 					var ut time.Duration
 					for _, x := range res.Evs {
